@@ -58,6 +58,9 @@ pub struct Model {
     pub former: BTreeSet<(String, String)>,
     /// successful settlements per vAMM
     pub settlements: Vec<u32>,
+    /// (vAMM, trader) -> height of the trader's last successful trade that left a position record (C16 reference;
+    /// kept from the history, not read from the stored position)
+    pub touched: BTreeMap<(usize, String), u64>,
 }
 
 /// Evidence and violation collector for one run.
@@ -425,8 +428,20 @@ impl Runner {
                         }
                     }
                 }
-                Op::Liquidate { vamm, .. } => {
+                Op::Liquidate { vamm, trader, .. } => {
                     self.model.liq_block[*vamm] = post.height;
+                    let t = self.w.resolve(trader);
+                    if post.position(*vamm, &t).is_none() {
+                        self.model.touched.remove(&(*vamm, t));
+                    }
+                }
+                Op::Open { vamm, .. } | Op::Close { vamm, .. } => {
+                    let t = self.w.resolve(&step.actor);
+                    if post.position(*vamm, &t).is_some() {
+                        self.model.touched.insert((*vamm, t), post.height);
+                    } else {
+                        self.model.touched.remove(&(*vamm, t));
+                    }
                 }
                 Op::PayFunding { vamm } | Op::SettleFunding { vamm } => {
                     self.model.settlements[*vamm] += 1;
